@@ -64,12 +64,13 @@ def run_ctl(case):
     try:
         problem = types.SimpleNamespace(num_vars=1, num_cons=0)
         ctl = step_controller(problem, params)
-        ctl.newton_steps = lambda it, rho, dt: iter(steps)
+        dts = []
+        ctl.newton_steps = lambda it, rho, dt: (dts.append(float(dt)), iter(steps))[1]
         if hasattr(ctl, "controller"):
             ctl.controller = types.SimpleNamespace(update=lambda theta: case["pi"], error_sum=0.0, reset=lambda: None)
         timer = Timer(params.time_limit)          # one clock read
         res = ctl.compute_step(orig, 1.0, 1.0 / case["lamb"], False, timer)
-        return {"id": res.iterate.ident, "lamb": float(res.lamb), "acc": bool(res.accepted)}
+        return {"id": res.iterate.ident, "lamb": float(res.lamb), "acc": bool(res.accepted), "dts": dts}
     finally:
         T.time, EC.ImplicitFunc, DC.ImplicitFunc, RC.ImplicitFunc = olds
         logger.setLevel(lvl)
@@ -166,6 +167,8 @@ class StepCtl(Unit):
             return "crash: compute_step raised %s: %s" % (r["exc"], r.get("msg"))
         lamb = case["lamb"]
         p = case["prm"]
+        if any(d != 1.0 / lamb for d in r.get("dts", [])):
+            return "dt_used: the controller was handed dt = %r but computed its Newton steps with dt = %r" % (1.0 / lamb, r["dts"])
         # (the exact controller's trial abandoned at a deadline test: unchanged iterate, unchanged lambda)
         abandoned = case["kind"] == 0 and any(self.passed(case)) and r["id"] == 0 and r["lamb"] == lamb
         if not r["acc"] and r["lamb"] <= lamb and not abandoned:
